@@ -39,7 +39,7 @@ def gen_model(rng, size="small", feats=None):
         "endtime": p(0.35), "maxdur": p(0.3), "maxstops": p(0.3), "maxdist": p(0.3),
         "attrs": p(0.3), "precedence": p(0.4), "no_startloc": p(0.15), "penalties": p(0.6),
         "activation": p(0.5), "nonmetric": p(0.5), "tight": p(0.5), "user": False, "groups": False, "initial": False,
-        "colocated": False, "one_vehicle": False, "fixed_p": 0.3,
+        "colocated": False, "one_vehicle": False, "fixed_p": 0.3, "dgroups": False,
     }
     if feats:
         F.update(feats)
@@ -160,9 +160,22 @@ def gen_model(rng, size="small", feats=None):
             units.append({"stops": [i], "arcs": []})
     for u in units:
         u["orders"] = topo_orders(u["stops"], u["arcs"])
+    # duration groups: disjoint groups of stops, the group duration is paid when the vehicle arrives from outside the group
+    dgroups = []
+    if F["dgroups"] and n >= 2:
+        ids = list(range(n))
+        rng.shuffle(ids)
+        k = 0
+        for _ in range(rng.randint(1, 2)):
+            size_g = rng.randint(1, 3)
+            if k + size_g > n:
+                break
+            dgroups.append((sorted(ids[k:k + size_g]), rng.choice([0, 60, 300, 900])))
+            k += size_g
     opts = {k: p(0.06) for k in ["dis_capacity", "dis_distance", "dis_max_duration", "dis_end_time", "dis_windows",
                                  "dis_max_stops", "dis_max_wait_stop", "dis_max_wait_vehicle", "dis_attributes",
                                  "dis_start_time", "dis_durations"]}
+    opts["dis_dgroups"] = bool(dgroups) and p(0.06)
     if opts["dis_start_time"] and F["windows"]:
         opts["dis_start_time"] = False
     opts.update({"f_activation": rng.choice([0, 1, 3]), "f_travel": rng.choice([0, 1, 2]),
@@ -248,7 +261,7 @@ def gen_model(rng, size="small", feats=None):
                 m2 -= T0
             user.append((f1, mxs[f1], False, tmp, True))
             user.append((f2, m2, True, tmp))
-    return {"groups": groups, "user": user, "stops": stops, "vehicles": vehicles, "units": units, "arcs": arcs, "dur": dur, "dist": dist,
+    return {"dgroups": dgroups, "groups": groups, "user": user, "stops": stops, "vehicles": vehicles, "units": units, "arcs": arcs, "dur": dur, "dist": dist,
             "nres": nres, "res_mode": res_mode, "opts": opts, "features": {k: bool(v) for k, v in F.items() if k != "fixed_p"}}
 
 
@@ -367,6 +380,8 @@ def to_json(m):
         if ve.get("initial"):
             vehicles[v]["initial_stops"] = [{"id": "s%d" % x, "fixed": bool(fx)} for x, fx in ve["initial"]]
     inp = {"stops": stops, "vehicles": vehicles, "duration_matrix": m["dur"], "distance_matrix": m["dist"]}
+    if m.get("dgroups"):
+        inp["duration_groups"] = [{"group": ["s%d" % x for x in g], "duration": d} for g, d in m["dgroups"]]
     if m.get("groups"):
         inp["stop_groups"] = [["s%d" % x for ui in g for x in m["units"][ui]["stops"]] for g in m["groups"]]
     o = m["opts"]
@@ -383,7 +398,7 @@ def to_json(m):
                        "vehicles_duration": float(o["f_vehicles_duration"]), "unplanned_penalty": float(o["f_unplanned"]),
                        "cluster": 0.0, "stop_balance": 0.0},
         "properties": {"disable": {"durations": o["dis_durations"], "stop_duration_multipliers": False,
-                                   "duration_groups": False, "initial_solution": False}},
+                                   "duration_groups": bool(o.get("dis_dgroups")), "initial_solution": False}},
         "validate": {"disable": {"start_time": False, "resources": True},
                      "enable": {"matrix": False, "matrix_asymmetry_tolerance": 20}},
     }
@@ -422,6 +437,10 @@ def to_lines(m):
                                              " ".join("%d %d %s" % (a, bb, b(d)) for a, bb, d in u["arcs"])))
         for od in u["orders"]:
             ls.append("uorder %d %d %s" % (min(u["stops"]), len(od), " ".join(map(str, od))))
+    if m.get("dgroups"):
+        ls.append("dgopt %s" % b(o.get("dis_dgroups")))
+        for g, d in m["dgroups"]:
+            ls.append("dgroup %d %d %s" % (d, len(g), " ".join(map(str, g))))
     for g in m.get("groups", []):
         ls.append("group %d %s" % (len(g), " ".join(str(min(m["units"][ui]["stops"])) for ui in g)))
     for v, ve in enumerate(m["vehicles"]):
